@@ -151,6 +151,17 @@ def M13(d):
         "\tplmnID := hex.EncodeToString(tmpBytes)\n\tif busy {\n\t\treturn plmnID[:5]\n\t}\n\tatomic.StoreInt32(&plmnBusy, 0)\n")
 
 
+def M14(d):
+    "NASMacCalculate computes the MAC in a helper goroutine (channel hand-back) and keeps the last MAC in a package variable"
+    p = d + "/security/security.go"
+    s = open(p).read()
+    s = s.replace("func NASMacCalculate(AlgoID uint8, KnasInt [16]uint8, Count uint32,\n\tBearer uint8, Direction uint8, msg []byte,\n) ([]byte, error) {\n",
+                  "var lastMac []byte\n\ntype macResult struct {\n\tmac []byte\n\terr error\n\tpan interface{}\n}\n\nfunc NASMacCalculate(AlgoID uint8, KnasInt [16]uint8, Count uint32,\n\tBearer uint8, Direction uint8, msg []byte,\n) ([]byte, error) {\n\tch := make(chan macResult, 1)\n\tgo func() {\n\t\tdefer func() {\n\t\t\tif p := recover(); p != nil {\n\t\t\t\tch <- macResult{pan: p}\n\t\t\t}\n\t\t}()\n\t\tm, e := nasMacCalculate(AlgoID, KnasInt, Count, Bearer, Direction, msg)\n\t\tlastMac = m\n\t\tch <- macResult{mac: m, err: e}\n\t}()\n\tr := <-ch\n\tif r.pan != nil {\n\t\tpanic(r.pan)\n\t}\n\treturn r.mac, r.err\n}\n\nfunc nasMacCalculate(AlgoID uint8, KnasInt [16]uint8, Count uint32,\n\tBearer uint8, Direction uint8, msg []byte,\n) ([]byte, error) {\n", 1)
+    if "nasMacCalculate" not in s:
+        raise SystemExit("M14 anchor not found")
+    open(p, "w").write(s)
+
+
 # ---- negative controls: must NOT be reported -------------------------------
 
 def N1(d):
@@ -186,7 +197,18 @@ def N4(d):
         "var (\n\tksMu    sync.Mutex\n\tksWords uint64\n)\n\nfunc GetKeyStream(k, iv [4]uint32, n int) []uint32 {\n\tksMu.Lock()\n\tdefer ksMu.Unlock()\n\tksWords += uint64(n)\n")
 
 
-MUTANTS = [M1, M2, M3, M4, M5, M6, M7, M8, M9, M10, M12, M13, N1, N2, N3, N4]
+def N5(d):
+    "NASMacCalculate computes the MAC in a helper goroutine and hands it back over a channel; no shared state"
+    p = d + "/security/security.go"
+    s = open(p).read()
+    s = s.replace("func NASMacCalculate(AlgoID uint8, KnasInt [16]uint8, Count uint32,\n\tBearer uint8, Direction uint8, msg []byte,\n) ([]byte, error) {\n",
+                  "type macResult struct {\n\tmac []byte\n\terr error\n\tpan interface{}\n}\n\nfunc NASMacCalculate(AlgoID uint8, KnasInt [16]uint8, Count uint32,\n\tBearer uint8, Direction uint8, msg []byte,\n) ([]byte, error) {\n\tch := make(chan macResult, 1)\n\tgo func() {\n\t\tdefer func() {\n\t\t\tif p := recover(); p != nil {\n\t\t\t\tch <- macResult{pan: p}\n\t\t\t}\n\t\t}()\n\t\tm, e := nasMacCalculate(AlgoID, KnasInt, Count, Bearer, Direction, msg)\n\t\tch <- macResult{mac: m, err: e}\n\t}()\n\tr := <-ch\n\tif r.pan != nil {\n\t\tpanic(r.pan)\n\t}\n\treturn r.mac, r.err\n}\n\nfunc nasMacCalculate(AlgoID uint8, KnasInt [16]uint8, Count uint32,\n\tBearer uint8, Direction uint8, msg []byte,\n) ([]byte, error) {\n", 1)
+    if "nasMacCalculate" not in s:
+        raise SystemExit("N5 anchor not found")
+    open(p, "w").write(s)
+
+
+MUTANTS = [M1, M2, M3, M4, M5, M6, M7, M8, M9, M10, M12, M13, M14, N1, N2, N3, N4, N5]
 
 
 def run(cmd, cwd, timeout=1800):
